@@ -4,6 +4,7 @@ import itertools
 
 from .. import util
 from ..interp import Interp, Path, abs_value, show, strip_sites, subterms, NONE
+from .. import slots
 from ..report import Undecided
 
 SELF = ("sym", "self")
@@ -374,7 +375,7 @@ def switch(chk):
     it = Interp(prog, fi, unroll=2, inline=lambda f, ct: f.cls is swcls and f.name != "regulate")
     outs = it.run()
     chk.count(len(outs))
-    DEFAULT = ("attr", SELF, "_default")
+    DEFAULT = ("attr", SELF, slots.attr_from_param(prog, prog.cls(SWITCH), "default"))
     n_checked = 0
     for o in outs:
         if o.kind not in ("normal", "return"):
@@ -413,7 +414,7 @@ def switch(chk):
                 chk.bad(rule, name, "iteration %d does not decide threshold <= demand exactly (remaining orderings %s)" % (i, sorted(s)), node=fi.node, stmt="guard-orientation", input=sorted(s))
                 ok = False
                 matched.append((i, slv, None))
-        if src is not None and src != ("attr", SELF, "_slaves"):
+        if src is not None and src != ("attr", SELF, slots.attr_from_expr(prog, prog.cls(SWITCH), lambda v, t: "slaves" in t, "slave table")):
             pass
         want = DEFAULT
         for i, slv, m in matched:
@@ -443,7 +444,7 @@ def switch(chk):
     src = ast.unparse(init.node)
     chk.count(3)
     ok2 = True
-    slaves_assign = [n for n in ast.walk(init.node) if isinstance(n, ast.Assign) and any(isinstance(t, ast.Attribute) and t.attr == "_slaves" for t in n.targets)]
+    slaves_assign = [n for n in ast.walk(init.node) if isinstance(n, ast.Assign) and any(isinstance(t, ast.Attribute) and t.attr == slots.attr_from_expr(prog, prog.cls(SWITCH), lambda v, t: "slaves" in t, "slave table") for t in n.targets)]
     asc_ok, _n = ascending_sort(chk, rule, init, "the slaves")
     if not asc_ok:
         ok2 = False
